@@ -42,11 +42,13 @@ type detCase struct {
 	fs   *sg.FileSet
 	opts []string // options without inputs
 	sig  string
+	// libs are written next to the inputs but not named on the command line (reached through references)
+	libs []*sg.SchemaFile
 }
 
 func (c *detCase) files(perm *sg.Rng) []batch.File {
 	var out []batch.File
-	for _, f := range c.fs.Files {
+	for _, f := range append(append([]*sg.SchemaFile{}, c.fs.Files...), c.libs...) {
 		j := f.Root.ToJSON()
 		if perm != nil {
 			j = permuteKeys(perm, j)
@@ -149,6 +151,26 @@ func c12(ctx *Ctx) (*Outcome, error) {
 					c.opts = append(c.opts, "--schema-root-type", bare+"="+fmt.Sprintf("Again%d", k))
 				}
 			}
+		}
+		if i%7 == 5 {
+			// an extension-less reference with several candidates (common.json / common.yaml / common.yml, all
+			// different) and several --resolve-extension values: which file is read is a function of the options
+			mkLib := func(field string) *sg.Schema {
+				return &sg.Schema{Types: []string{"object"}, Defs: []sg.Prop{{Name: "Address", S: &sg.Schema{Types: []string{"object"}, Props: []sg.Prop{{Name: field, S: &sg.Schema{Types: []string{"string"}}}}}}}}
+			}
+			first := fs.Files[0]
+			dir := filepath.Dir(first.Path)
+			for k, ext := range []string{".json", ".yaml", ".yml"} {
+				c.libs = append(c.libs, &sg.SchemaFile{Name: "common" + ext, Path: filepath.Join(dir, "common"+ext), Root: mkLib([]string{"street", "line1", "freeform"}[k]), YAML: ext != ".json"})
+			}
+			if len(first.Root.Types) == 1 && first.Root.Types[0] == "object" {
+				first.Root.Props = append(first.Root.Props, sg.Prop{Name: "postal", S: &sg.Schema{Ref: "common#/$defs/Address", Target: c.libs[0].Root.Defs[0].S}})
+			}
+			exts := [][]string{{".json", ".yaml", ".yml"}, {".yml", ".json", ".yaml"}, {".yaml", ".yml", ".json"}}[(i/7)%3]
+			for _, e := range exts {
+				c.opts = append(c.opts, "--resolve-extension", e)
+			}
+			c.sig += " ambiguous-extensionless-ref"
 		}
 		if !hasOutputMapping(c.opts) {
 			c.opts = append(c.opts, "-o", "gen/out.go")
